@@ -9,7 +9,12 @@ raised error can be turned into its message and location without raising.
 
 from __future__ import annotations
 
+import asyncio
+import atexit
 import math
+import os
+import shutil
+import tempfile
 from typing import Any
 
 from hypothesis import strategies as st
@@ -22,11 +27,18 @@ from lv.gen.grammar import SHOPIFY_FILTERS
 from lv.gen.grammar import Cfg
 from lv.gen.grammar import data_strategy
 from lv.gen.grammar import program_strategy
+from lv.gen.printer import Layout
+from lv.gen.printer import quote_string
 from lv.gen.printer import to_source
 from lv.harness.envs import corpus
 from lv.harness.envs import make_env
 from lv.harness.envs import run_coro
 
+from liquid2 import CachingFileSystemLoader
+from liquid2 import ChoiceLoader
+from liquid2 import DictLoader
+from liquid2 import FileSystemLoader
+from liquid2 import PackageLoader
 from liquid2.exceptions import LiquidError
 
 TOKENS = [
@@ -190,6 +202,64 @@ def prog_case(draw: Any) -> dict[str, Any]:
             "mode": draw(st.sampled_from(["sync", "async"]))}
 
 
+# ---- template names handed to file-system / package loaders (from data or as literals)
+HOSTILE_NAMES = [
+    "", ".", "/", "./", "//", "a/.", "..", "../", "\x00", "a\x00b", "a" * 300, "a" * 5000, "a/" * 200 + "x", ".html",
+    "~", "%", "a\nb", " ", "x" * 255, "x" * 256, "\u00e9" * 200, "dir", "dir/", "sub", "sub/.", "a.html", "a", "sub/b",
+    "a.html/", "a.html/x", "/etc/passwd", "\\", "con", "a:b", "?", "*", "\ud800", "a" * 255 + ".html", ". ", ".a",
+]
+LOADERS = ["fs", "fs-ext", "cfs-ext", "pkg", "pkg-ext", "choice"]
+LOAD_TAGS = ["include", "render", "extends", "include-data", "render-for-data", "get"]
+
+
+@st.composite
+def load_case(draw: Any) -> dict[str, Any]:
+    r = draw(st.integers(0, 3))
+    if r == 0:
+        name: Any = draw(st.sampled_from(HOSTILE_NAMES))
+    elif r == 1:
+        name = draw(st.text(alphabet="./\\\x00 a~\u00e9%:*?\n", max_size=8))
+    elif r == 2:
+        name = draw(st.sampled_from(HOSTILE_NAMES)) + draw(st.sampled_from(["", "/", ".", ".html", "/..", "\x00"]))
+    else:
+        name = draw(junk)  # not even a string
+    return {"kind": "load", "name": name, "tag": draw(st.sampled_from(LOAD_TAGS)),
+            "loader": draw(st.sampled_from(LOADERS)), "mode": draw(st.sampled_from(["sync", "async"]))}
+
+
+_LOAD_DIR: list[str] = []
+
+
+def _load_dir() -> str:
+    """A small template directory (created once per process, removed at exit)."""
+    if not _LOAD_DIR:
+        d = tempfile.mkdtemp(prefix="lv-c02-")
+        os.makedirs(os.path.join(d, "sub"))
+        os.makedirs(os.path.join(d, "dir"))
+        for rel in ("a.html", "a", "sub/b.html", "x.liquid"):
+            with open(os.path.join(d, rel), "w", encoding="utf-8") as fd:
+                fd.write("T:" + rel)
+        _LOAD_DIR.append(d)
+        atexit.register(shutil.rmtree, d, True)
+    return _LOAD_DIR[0]
+
+
+def _loader(kind: str) -> Any:
+    d = _load_dir()
+    if kind == "fs":
+        return FileSystemLoader(d)
+    if kind == "fs-ext":
+        return FileSystemLoader([d, os.path.join(d, "sub")], ext=".html")
+    if kind == "cfs-ext":
+        return CachingFileSystemLoader(d, ext=".html")
+    if kind == "pkg":
+        return PackageLoader("liquid2", package_path="builtin")
+    if kind == "pkg-ext":
+        return PackageLoader("liquid2", package_path=["builtin", "utils"], ext=".py")
+    return ChoiceLoader([DictLoader({"known": "K"}), FileSystemLoader(d, ext=".html"),
+                         PackageLoader("liquid2", package_path="builtin")])
+
+
 ALL_FILTERS = sorted(set(FILTERS) | set(SHOPIFY_FILTERS) | {
     "t", "gettext", "ngettext", "pgettext", "npgettext", "date", "safe", "currency", "datetime", "decimal",
     "unit", "money", "money_with_currency", "money_without_currency", "money_without_trailing_zeros"})
@@ -242,7 +312,8 @@ class C02(Prop):
         return 24000 if tier == "quick" else 600000
 
     def strategy(self, tier: str, disabled: frozenset[str]):
-        return st.one_of(text_case(), text_case(), prog_case(), filter_case())
+        return st.one_of(text_case(), text_case(), text_case(), text_case(), prog_case(), prog_case(), filter_case(),
+                         filter_case(), load_case())
 
     def enumerate(self, tier: str, disabled: frozenset[str]):
         tests = _corpus_sources()
@@ -254,6 +325,12 @@ class C02(Prop):
             for k in range((ti % step), len(src), step):
                 yield {"kind": "text", "src": src[:k], "data": t.get("data") or {},
                        "templates": t.get("templates") or {}, "mode": "sync"}
+
+        for ni, name in enumerate(HOSTILE_NAMES):
+            for loader in LOADERS:
+                for ti, tag in enumerate(LOAD_TAGS):
+                    yield {"kind": "load", "name": name, "tag": tag, "loader": loader,
+                           "mode": "async" if (ni + ti) % 2 else "sync"}
 
     def enumerated_is_exhaustive(self, tier: str) -> bool:
         return False
@@ -281,6 +358,8 @@ class C02(Prop):
     def check(self, case: Any, disabled: frozenset[str] = frozenset()) -> Result:
         res = Result()
         kind = case["kind"]
+        if kind == "load":
+            return self._check_load(case, res)
         if kind == "text":
             src = case["src"]
             templates = dict(PARTIALS)
@@ -363,6 +442,53 @@ class C02(Prop):
             res.fail("escape-render", exc_bucket(err), f"{type(err).__name__}: {err} | src={src!r}")
         return res
 
+    def _check_load(self, case: Any, res: Result) -> Result:
+        """A template name - any JSON value from the data, or any string literal - handed to a loader that
+        touches the file system."""
+        name = decode_junk({"n": case["name"]})["n"]
+        tag = case["tag"]
+        res.labels.append("load:" + case["loader"] + ":" + tag)
+        res.nontrivial = True
+        env = make_env(loader=_loader(case["loader"]), shopify=True)
+        lit = quote_string(name, Layout(0)) if isinstance(name, str) else None
+        if tag in ("include", "render", "extends") and lit is None:
+            tag = "include-data"
+        src = {"include": "{% include " + str(lit) + " %}", "render": "{% render " + str(lit) + " %}",
+               "extends": "{% extends " + str(lit) + " %}", "include-data": "{% include n %}",
+               "render-for-data": "{% for i in (1..2) %}{% include n with i %}{% endfor %}", "get": ""}[tag]
+        use_async = case.get("mode") == "async"
+
+        async def go_async() -> None:
+            if tag == "get":
+                await env.get_template_async(name)
+            else:
+                await env.from_string(src).render_async(n=name)
+
+        try:
+            if use_async:
+                asyncio.run(go_async())  # file system loaders suspend in an executor: a running loop is needed
+            elif tag == "get":
+                env.get_template(name)
+            else:
+                env.from_string(src).render(n=name)
+            res.labels.append("rendered")
+        except LiquidError as err:
+            self._check_error(err, res, "render")
+            res.labels.append("render-error")
+        except RecursionError:
+            res.labels.append("recursion")
+        except Exception as err:  # noqa: BLE001
+            if tag == "get" and not isinstance(name, str):
+                res.labels.append("api-misuse")  # get_template(<not a string>) is a Python caller's type error
+                return res
+            try:
+                shown = repr(name)[:80]
+            except ValueError:
+                shown = f"<{type(name).__name__} too large to print>"
+            res.fail("escape-load", exc_bucket(err),
+                     f"{type(err).__name__}: {err} | loader={case['loader']} tag={tag} name={shown} src={src[:120]!r}")
+        return res
+
     def _check_error(self, err: LiquidError, res: Result, phase: str) -> None:
         for name, fn in (("str", lambda: str(err)), ("detailed_message", err.detailed_message),
                          ("context", err.context)):
@@ -380,6 +506,8 @@ class C02(Prop):
         if case["kind"] == "prog":
             return {"kind": "prog", "src": to_source(case["prog"]["main"], case["layout"])[:300],
                     "data_keys_hostile": sorted(k for k, v in case["data"].items() if _is_junk(v))[:8]}
+        if case["kind"] == "load":
+            return {**case, "name": repr(case["name"])[:80]}
         if case["kind"] == "text":
             return {"kind": "text", "src": case["src"][:200]}
         return {k: (repr(v)[:60] if k in ("left", "args") else v) for k, v in case.items()}
